@@ -4,6 +4,10 @@ import json, os, subprocess
 ROOT = os.path.dirname(os.path.dirname(os.path.abspath(__file__)))
 
 CHECKS = {
+    "C19": dict(level="model_checking", design="DESIGN.md section 5 C19",
+                technique="TLC model checking of Bits.tla + TLC validation of call records of the real bit primitives and of BASIC programs against it",
+                text="D: TLC checks on all 65536 words that Twos16 is a bijection, NOT n = -n-1, the byte split round-trips, the AND/OR laws (idempotence, identities, complement, De Morgan, inclusion-exclusion on a boundary set) and that the IEEE field<->byte layout is an inverse pair. V: every word through i32_to_bytes / NOT, every byte pair through bytes_to_i32, boundary and random pairs through qb_and / qb_or, doubles given by IEEE fields through f64_to_bytes / bytes_to_f64 (powers of two, boundary mantissas, subnormals, beyond 2^63, random patterns); the same through BASIC (AND/OR/NOT, PEEK/POKE, MKD$/CVD); each record validated by TLC against Bits.tla. Millions of random pairs are bridged against the machine operations.",
+                note="Trusted: f64::to_bits in the harness (presents a double to the spec as fields), TLC. NaN/infinity excluded."),
     "C02": dict(level="model_checking", design="DESIGN.md section 5 C02",
                 technique="TLA+ rewrite rules (Rewrite.tla) applied and proved output-preserving per instance by TLC on Core.tla; real interpreter compared with itself on both spellings",
                 text="TLC enumerates every (program, rule, site) over the base programs and seven rules (FOR as WHILE with sign-tested hidden limit/step, WHILE as DO WHILE, DO UNTIL c as DO WHILE NOT c, SELECT CASE as IF/ELSEIF chain with the subject bound once, block IF as single-line IF, FOR without STEP as STEP 1, loop body wrapped in IF -1), runs the reference semantics on both spellings (so an instance is only used when the rule is sound for it in the oracle) and emits the rewritten program; the driver runs the real interpreter on both texts and compares output, outcome and error code.",
